@@ -30,10 +30,22 @@ def inputs(tier):
     out = [dict(src='corpus', d=d) for d in corpus.pairs(tier, kinds_a=TITR, kinds_b=ALLK, dists=ds, levels=lv)]
     out += [dict(src='corpus', d=d) for d in corpus.clusters(tier)]
     out += [dict(src='corpus', d=d) for d in corpus.cutouts(tier, radius=10.0, every=(1 if tier == 'thorough' else 4))]
+    # ligands bridging the amide N-H and the carbonyl O of one residue (two backbone determinants from one residue)
+    for lig in ('ACT', 'PYR', 'MGU', 'MAM'):
+        for which in (0, 1, 2):
+            for lv in ('exposed', 'deep'):
+                out.append(dict(src='corpus', d=dict(t='bbbridge', lig=lig, which=which, level=lv)))
+    # covalently coupled titratable groups next to a close charged partner (parameter toggles below act on them)
+    coupled = [dict(src='corpus', d=corpus.cutout_desc('4DFR', 'A', 26, 10.0)), dict(src='corpus', d=corpus.cutout_desc('4DFR', 'B', 26, 10.0)),
+               dict(src='corpus', d=corpus.pair_desc('MPO', 'ARG', 2.8, 'deep')), dict(src='corpus', d=corpus.pair_desc('MPO', 'LYS', 2.8, 'deep')),
+               dict(src='corpus', d=corpus.pair_desc('MPO', 'GLU', 3.0, 'deep')), dict(src='corpus', d=corpus.window_desc('3SGB', 'I', 0, 8))]
+    out += coupled
+    out += [dict(i, cfg=c) for i in coupled for c in ('shared', 'shared-keep')]
     # the same monitors under parameter files that move the scalar settings the bounds are read from
     base = [i for i in out if i['d']['t'] in ('cutout', 'cluster')] + [i for i in out if i['d']['t'] == 'pair'][:: (7 if tier == 'quick' else 3)]
     for name in CFG_EDITS:
-        out += [dict(i, cfg=name) for i in base[:: (2 if tier == 'quick' else 1)]]
+        if not name.startswith('shared'):
+            out += [dict(i, cfg=name) for i in base[:: (2 if tier == 'quick' else 1)]]
     if tier == 'thorough':
         out += [dict(src='corpus', d=corpus.file_desc(k)) for k in gen.PROTEINS]
     return out
@@ -53,7 +65,18 @@ def plan(tier, seed):
 
 
 def monitor(rec, params, confs=None):
-    """Returns [(class_key, what)] and a set of observed interaction classes."""
+    """Returns [(class_key, what)] and a set of observed interaction classes.
+
+    With shared_determinants switched on, covalently coupled groups copy each other's determinants whatever their charge (that
+    is what the switch is for), so only the magnitude bounds and the buried range are judged under such parameter files."""
+    v, seen = [], set()
+    v, seen = monitor_(rec, params, confs)
+    if getattr(params, 'shared_determinants', 0):
+        v = [x for x in v if x[0].split('/')[0] in ('buried-out-of-range', 'backbone-bound', 'sidechain-bound', 'coulomb-bound')]
+    return v, seen
+
+
+def monitor_(rec, params, confs=None):
     v, seen = [], set()
     side_max = 2.0 * abs(params.sidechain_interaction) if not hasattr(params.sidechain_interaction, 'get_value') else 1.7
     bb_max = max([abs(x[0]) for x in list(params.backbone_NH_hydrogen_bond.values()) + list(params.backbone_CO_hydrogen_bond.values())] or [0.85])
@@ -117,7 +140,8 @@ def monitor(rec, params, confs=None):
     return v, seen
 
 
-CFG_EDITS = {'allowance': {'desolvationAllowance': '0.05'}, 'scaling': {'desolvationSurfaceScalingFactor': '0.0', 'desolvationPrefactor': '-20.0'},
+CFG_EDITS = {'shared': {'shared_determinants': '1'}, 'shared-keep': {'shared_determinants': '1', 'remove_penalised_group': '0'},
+             'allowance': {'desolvationAllowance': '0.05'}, 'scaling': {'desolvationSurfaceScalingFactor': '0.0', 'desolvationPrefactor': '-20.0'},
              'ranges': {'Nmin': '100', 'Nmax': '300', 'coulomb_cutoff1': '3.0', 'coulomb_cutoff2': '12.0'},
              'hbond': {'sidechain_interaction': '1.2', 'COO_HIS_exception': '2.9', 'CYS_CYS_exception': '4.4'}}
 
